@@ -1305,3 +1305,68 @@ Lemma stats_of_ext ap fmt g1 g2 R :
   stats_of ap fmt g1 R = stats_of ap fmt g2 R.
 Proof. intros Hs Ho. destruct R as [|r R]; [reflexivity|]. unfold stats_of. now apply grow_ext. Qed.
 
+Theorem rewrite_idempotent : forall ap, ap_ok ap -> (forall s o x, 0 <= ap s o x) ->
+  forall h vl fmt recs evl f lf,
+  wf_las ap h vl fmt recs evl ->
+  file_of ap h vl fmt recs evl = Ok f -> read_file f = Ok lf ->
+  file_of ap (rh_fields (lf_h lf)) (rh_vlrs (lf_h lf)) (rh_fmt (lf_h lf)) (lf_points lf)
+          (match rh_evlrs (lf_h lf) with Some l => l | None => [] end) = Ok f.
+Proof.
+  intros ap _ _ h vl fmt R evl f lf W F Hrd.
+  destruct (file_facts _ _ _ _ _ _ _ W F)
+    as (h0 & b0 & eb & hR & bR & E0 & Eeb & ER & -> & WfR & Wevl & WrR & Wps & Wev4 & Wnev & Wfmt).
+  destruct (rf_read ap h vl fmt R evl h0 b0 eb hR bR E0 Eeb ER WfR Wevl WrR Wps Wev4 Wfmt lf Hrd)
+    as (Hr & -> & -> & -> & Hevl).
+  clear Hrd F W.
+  change (match rh_evlrs (lf_h lf) with Some l => l | None => [] end) with (evl_of (rh_evlrs (lf_h lf))).
+  rewrite Hevl. set (hd := rh_fields (lf_h lf)) in *. set (m := aint h0 "version.minor") in *.
+  destruct Hr as (Hget & Heh & Hev).
+  pose proof (wfst_fstats ap fmt h R evl (len b0)) as Wst.
+  pose proof (rb_range _ _ _ _ _ Wst ER) as Hm. fold m in Hm.
+  pose proof (rb_core _ _ _ _ _ _ _ E0 Wst ER _ Hget) as Hcore.
+  destruct (rb_bytes _ _ _ _ _ _ _ E0 Wst ER _ Heh Hev) as [Beh Bev].
+  pose proof (rb_plain_wval _ _ _ _ _ _ _ E0 Wst ER _ Hget) as Hplain. fold m in Hplain.
+  assert (forall k, is_stat k = false -> sval stats0 k = None) as N0 by (intros; apply sval_none; [apply wfst_stats0|assumption]).
+  (* the opening header *)
+  assert (same_out (enc_header (with_stats hd stats0) vl false) (enc_header (with_stats h stats0) vl false)) as Hso0.
+  { apply (enc_header_agree m); try assumption.
+    - apply Hcore. cbn; tauto.
+    - symmetry. apply (open_plain_aint _ _ _ _ _ E0); reflexivity.
+    - destruct (Hcore "version.major"%string ltac:(cbn; tauto)) as [-> _].
+      apply (open_plain_aint _ _ _ _ _ E0); reflexivity.
+    - discriminate.
+    - intros n Hin Hs Hd. rewrite (Hplain n Hin Hs). apply wval_aget. now apply (open_plain _ _ _ _ _ E0).
+    - rewrite Beh. apply (open_plain_abytes _ _ _ _ _ E0); reflexivity.
+    - rewrite Bev. apply (open_plain_abytes _ _ _ _ _ E0); reflexivity.
+    - apply sagree_refl, wfst_stats0. }
+  destruct (enc_header_transfer _ _ _ _ _ _ E0 Hso0) as (hd0 & Ed0).
+  (* the statistics *)
+  assert (fstats ap fmt hd R evl (len b0) = fstats ap fmt h R evl (len b0)) as Hfs.
+  { unfold fstats. rewrite (stats_of_ext ap fmt hd h R); [reflexivity| |].
+    - intros i. destruct (Hcore _ (axis_core "scales" i (or_introl eq_refl))) as [-> _].
+      apply (open_plain_aint _ _ _ _ _ E0); destruct i as [|[|i]]; reflexivity.
+    - intros i. destruct (Hcore _ (axis_core "offsets" i (or_intror eq_refl))) as [-> _].
+      apply (open_plain_aint _ _ _ _ _ E0); destruct i as [|[|i]]; reflexivity. }
+  (* the final header *)
+  assert (forall n, derived n = false -> is_stat n = false -> aget hd0 n = aget hd n) as Hd0.
+  { intros n Hd Hs. rewrite (enc_keeps_aget _ _ _ _ _ _ Ed0 Hd). rewrite aget_with_stats. rewrite (N0 n Hs). reflexivity. }
+  assert (forall n, derived n = false -> is_stat n = false -> aint hd0 n = aint hd n) as Hd0i
+    by (intros n Hd Hs; unfold aint; rewrite (Hd0 n Hd Hs); reflexivity).
+  assert (forall n, derived n = false -> is_stat n = false -> abytes hd0 n = abytes hd n) as Hd0b
+    by (intros n Hd Hs; unfold abytes; rewrite (Hd0 n Hd Hs); reflexivity).
+  assert (same_out (enc_header (with_stats hd0 (fstats ap fmt h R evl (len b0))) vl true)
+                   (enc_header (with_stats h0 (fstats ap fmt h R evl (len b0))) vl true)) as Hso1.
+  { apply (enc_header_agree m); try assumption.
+    - rewrite (Hd0i "version.minor"%string eq_refl eq_refl). apply (Hcore "version.minor"%string). cbn; tauto.
+    - reflexivity.
+    - rewrite (Hd0i "version.major"%string eq_refl eq_refl). apply (Hcore "version.major"%string). cbn; tauto.
+    - intros _. rewrite <- (enc_header_len _ _ _ _ _ Ed0). exact (enc_header_len _ _ _ _ _ E0).
+    - intros n Hin Hs Hd. rewrite <- (Hplain n Hin Hs). apply wval_aget. apply Hd0; assumption.
+    - rewrite (Hd0b "extra_header_bytes"%string eq_refl eq_refl). exact Beh.
+    - rewrite (Hd0b "extra_vlr_bytes"%string eq_refl eq_refl). exact Bev.
+    - apply sagree_refl. exact Wst. }
+  destruct (enc_header_transfer _ _ _ _ _ _ ER Hso1) as (hR' & ER').
+  rewrite <- Hfs in ER'.
+  exact (file_of_intro ap hd vl fmt R evl hd0 b0 eb hR' bR Ed0 Eeb ER').
+Qed.
+Print Assumptions rewrite_idempotent.
